@@ -374,6 +374,11 @@ def specs(tier):
                 if tier == "quick" and variant == "async" and (a, b, c) not in CONFIGS_QUICK[:5]:
                     continue
                 out.append(make_spec(MOD, "KeepAliveHarness", variant=variant, proto=proto, max_connections=a, max_keepalive=b, expiry=c, depth=depth))
+    # longer histories on one origin (three and more requests with time passing in between: a deadline that is not refreshed)
+    for variant in ("sync", "async"):
+        for proto in ("h1", "h2"):
+            out.append(make_spec(MOD, "KeepAliveHarness", variant=variant, proto=proto, max_connections=1, max_keepalive=None, expiry=5.0,
+                                 depth=6 if tier == "quick" else 7, origins=1))
     # the other ten connection types (TLS, negotiated protocol, forward / tunnel / SOCKS proxies): their connection classes have
     # their own idle / expired / available predicates, delegating to the wrapped connection
     for ct in PROXIED:
